@@ -213,13 +213,13 @@ def enum_swaps(tier, shard, nshards, seed):
     reps = 3 if tier == 'quick' else 10
     k = 0
     for r in range(reps):
-        for nm in sorted(TBL.SWAPS):
+        for nm in sorted(TBL.SWAPS) + sorted(TBL.SWAPS3):
             if k % nshards == shard:
-                yield dict(model=nm, seed=(seed + 15485863 * k) % (2 ** 31), n1=2 + (k % 3), n2=3 + ((k // 3) % 2), pts=16)
+                yield dict(model=nm, seed=(seed + 15485863 * k) % (2 ** 31), n1=2 + (k % 3), n2=3 + ((k // 3) % 2), n3=2 + ((k // 2) % 2), pts=16)
             k += 1
 
 
-@REG.relation('R3-swap-equivariance', enum=enum_swaps, quick=(len(TBL.SWAPS), 16), thorough=(6 * len(TBL.SWAPS), 16))
+@REG.relation('R3-swap-equivariance', enum=enum_swaps, quick=(len(TBL.SWAPS) + len(TBL.SWAPS3), 16), thorough=(6 * (len(TBL.SWAPS) + len(TBL.SWAPS3)), 16))
 def r3(case, rec):
     """Symmetric two-population models: swapping the labels together with parameters and sample sizes transposes the spectrum, up
     to an operator-splitting error that shrinks with the time step."""
@@ -227,18 +227,25 @@ def r3(case, rec):
     f = resolve(name)
     rs = np.random.RandomState(case['seed'])
     pd = draw_params(rs, f)
-    perm = TBL.SWAPS[name]
+    if name in TBL.SWAPS3:
+        # axes[i] = the population of the original model that sits on axis i of the relabelled one; the relabelled model's
+        # parameter p takes the value of the original's parameter perm[p]
+        axes, perm = TBL.SWAPS3[name]
+        ns = (case['n1'], case['n2'], case.get('n3', 2))
+    else:
+        axes, perm = (1, 0), TBL.SWAPS[name]
+        ns = (case['n1'], case['n2'])
     sw = {}
     for p in f.__param_names__:
         src = perm.get(p, p)
         sw[p] = float(eval(src, {}, dict(pd)))
-    ns = (case['n1'], case['n2'])
     rec.case(case, len(pd) >= 3, [name.split('.')[0]])
+    inv = tuple(axes.index(i) for i in range(len(axes)))
     errs = []
     for tau in (4e-3, 1e-3, 2.5e-4):
         with D.timescale(factor=tau):
             a = np.asarray(np.ma.getdata(evaluate(name, f, pd, ns, case['pts'])), float)
-            b = np.asarray(np.ma.getdata(evaluate(name, f, sw, ns[::-1], case['pts'])), float).T
+            b = np.asarray(np.ma.getdata(evaluate(name, f, sw, tuple(ns[i] for i in axes), case['pts'])), float).transpose(inv)
         inner = np.ones(a.shape, bool)
         inner.flat[0] = inner.flat[-1] = False
         errs.append(np.abs(a[inner] - b[inner]).max() / np.abs(a[inner]).max())
